@@ -7,7 +7,7 @@ from vlib import gen as G
 
 ID = "C10"
 # look-alikes of prelude names (vlib/defs.py HOSTILE) this check's derives are immune to on the unchanged tree
-HOSTILE_OK = ['Default', 'From', 'Into', 'Result', 'Option', 'Some', 'Ok', 'Iterator', 'AsRef', 'Send', 'PhantomData', 'IterGet', 'm_matches', 'm_assert', 'm_fmt', 'c_binders']
+HOSTILE_OK = ['Default', 'From', 'Into', 'Result', 'Option', 'Some', 'Ok', 'Iterator', 'AsRef', 'Send', 'PhantomData', 'IterGet', 'm_matches', 'm_assert', 'm_fmt', 'c_binders', 'ByValue']
 PROP_FILE = "Props/C10.v"
 RULE = ("field-less enums with 1-8 enabled variants and every placement of disabled ones for up to 5 variants (identifiers with "
         "acronyms / digits / underscores so that the snake-cased field names are exercised). Histories per definition: all "
